@@ -55,7 +55,10 @@ CLAIMED = {
              "and every interleaving of connection, receiver and application thread (the original blocking loop is kept as a "
              "regression witness that TLC must refute). The real endpoint is driven through every byte offset of four streams "
              "x session state x {peer close, disable(), reconnect+select} under fifo/PCT/random schedules; virtual time makes "
-             "'blocked forever' observable; each scenario record is validated by TLC.",
+             "'blocked forever' observable; each scenario record is validated by TLC. The hand-over of outbound blocks between sending "
+             "threads, the receiver loop and the connection thread's Separate.req is the model SendHandover (CloseFinishes, "
+             "NoStrandedBlock; the original early return after a failed send is a witness TLC must refute); 1-3 threads sending "
+             "through the real HsmsProtocol over the real TCP classes while the peer leaves must end NOT CONNECTED with disable() returning.",
         note="FakeConnection mirrors TcpConnection's close sequence; kernel TCP behaviour is not part of this check; "
              "schedules sampled",
         category="fault_enumeration",
@@ -72,7 +75,8 @@ CLAIMED = {
              "preemption in the counter/queue/dispatcher code, instant replies while the requesting thread resumes late; every event "
              "trace is folded through TxMon by TLC, and the fine-grained event trace of every run (system bytes handed out, queue "
              "registered, request written, message taken, queue put, hand-over begin/end, queue removed) must be a behaviour of "
-             "the Transactions model.",
+             "the Transactions model. Primaries of the peer that carry the system bytes of an open request (PeerCollide; witness: "
+             "routing by system bytes alone) and a link lost inside an inbound frame before the reconnect are part of model and runs.",
         note="schedules of the real code are sampled (PCT depth 3), not exhausted; messages still queued for dispatch when the "
              "link drops are treated as in flight at link loss",
         design="5/C06"),
@@ -126,8 +130,10 @@ CLAIMED = {
              "monitor (1920 states, 232k transitions; ConstantsWithinBounds, AllOrNothing, AlarmReportIffEnabledChange checked by "
              "TLC). Random walks of 40 requests over the 121-request alphabet (thorough: walks covering the complete relation) run "
              "on a real equipment handler with numeric and text ids; decoded replies, S5F1 reports and the constant/alarm tables "
-             "after every step are validated by TLC.",
-        note="two user SVs, two ECs (one bounded), two alarms; value classes below/min/inside/max/above; predefined SVs masked",
+             "after every step are validated by TLC. The predefined Clock variable is read at frozen equipment-clock instants "
+             "(sub-second parts around every digit boundary) in TimeFormat 0/1/2 set through S2F15; ClockJudge (TLC) decides each reply.",
+        note="two user SVs, four ECs, two alarms; value classes below/min/inside/max/above; other predefined SVs masked in the walks; "
+             "the equipment's clock is replaced through the module-level datetime reference (falls back to the wall-clock window)",
         design="5/C13"),
     "C01": dict(
         technique="executable TLA+ reference codec E5Item; TLC proves round-trip/prefix-freeness/minimal-header on a boundary "
@@ -167,7 +173,7 @@ CLAIMED = {
              "rejection of all single-byte corruptions for blocks with 0/1/244 data bytes, and every interleaving of three "
              "messages' blocks in the reassembly model. 540 header vectors, 9 boundary body lengths (byte-exact blocks), block "
              "counts up to 32767, ~4k corruptions of real blocks and random merges of four multi-block messages through the real "
-             "dispatch path are compared with it.",
+             "dispatch path are compared with it; blocks whose checksum has a zero byte are corrupted with all 255 values of every byte.",
         note="checksum strength against multi-byte corruption is outside the property (single-byte alterations)",
         design="5/C16"),
     "C17": dict(
@@ -201,7 +207,10 @@ CLAIMED = {
         text="The documented grammar and shape rules are a TLA+ module; TLC enumerates 1884 definitions (depth <= 3, width <= 3, 4 data "
              "items, optional list names, distinct member keys) with expected shape and ~6k single missing '>' / unknown-name "
              "mutants; each definition is rendered with varied white space, line breaks, comments and compact layout and the real "
-             "generator's List/Array structure, key order and leaf items are compared; every mutant must raise.",
+             "generator's List/Array structure, key order and leaf items are compared; every mutant must raise. Lexical level: SfdlLex "
+             "model-checks the tokenizer's character loop against the documented rules for every text of up to 7 (8) characters "
+             "(witness: comment end swallowed), SfdlSep enumerates every separator of up to 3 (4) characters the rules allow between "
+             "two tokens and each is placed at every gap of 7 real definitions.",
         note="the generator stays inside what the document defines (no empty lists, distinct keys, upper-case L)",
         design="5/C19"),
     "C03": dict(
@@ -224,7 +233,9 @@ CLAIMED = {
              "for every short-write/drain/reset interleaving (the original loop ignoring send()'s return value is the regression "
              "witness TLC must refute). The real TCP connection classes run on a simulated socket layer with capacities 1 B..64 KiB, "
              "short-write policies, reader pacings and message sizes 1 B..3 MiB (around the capacity and the 1 MiB packet split); "
-             "what the peer reads is validated by TLC against the reported results.",
+             "what the peer reads is validated by TLC against the reported results. SendHandover models the hand-over of blocks to the "
+             "receiver loop (ReportedSuccessMeansSent; witness: a wait that gives up counts as success); 1-3 threads send at the same "
+             "time through the real HsmsProtocol while the peer drains, stalls longer than T3, or leaves.",
         note="kernel TCP behaviour is the simulated socket layer (assumption); real loopback sockets are not used",
         design="5/C10"),
     "C20": dict(
@@ -236,7 +247,8 @@ CLAIMED = {
              "scheduler (fifo/random/PCT) over the real TcpClient/TcpServerConnection with 64 KiB and 64 B socket buffers, both role "
              "assignments and enable orders, with a session of 22 host service calls, collection events and a remote command, and "
              "disable/enable cycles of either side; time to reach communication, every returned value vs the equipment's tables "
-             "and the received events are validated by TLC.",
+             "and the received events are validated by TLC. A host request and an event report crossing on the link, and sessions in "
+             "which both transaction counters start equal (same system bytes in both directions), are part of every session.",
         note="schedule space and session scripts are sampled; link latency zero (segmentation through small buffers); bound 60 "
              "virtual seconds",
         design="5/C20"),
